@@ -368,14 +368,90 @@ def run_case(ctx, case):
 BOUNDS = {"quick": dict(examples=800, units=16), "thorough": dict(examples=4000, units=16)}
 
 
+# ---------------------------------------------------------------------------
+# whole-value assignment of element-prepared containers: the stored state is {prepare(x) for x in v} (every element prepared
+# exactly once), for preparers that map elements onto other elements of the same value (n+1, n-1, 2n): exhaustive small scope
+
+SP_PREPARERS = {"inc": lambda n: n + 1, "dec": lambda n: n - 1, "double": lambda n: n * 2, "abs": abs}
+SP_ROUTES = ["ctor", "assign", "with", "update", "with_inplace"]
+_SP = {}
+
+
+def sp_class(kind, how):
+    key = (kind, how)
+    if key not in _SP:
+        from typing import Dict, List, Set
+
+        from spec_classes import spec_class
+
+        T = {"set": Set[int], "list": List[int], "dict": Dict[str, int]}[kind]
+        f = SP_PREPARERS[how]
+        ns = {"__annotations__": {"numbers": T, "tag": int}, "tag": 0, "_prepare_number": lambda self, n: f(n), "__module__": "vf.generated"}
+        _SP[key] = spec_class(bootstrap=True)(type("SP", (), ns))
+    return _SP[key]
+
+
+def run_setprep(ctx, case):
+    import itertools as _it
+
+    kind, how, route, vals = case["setprep"], case["how"], case["route"], case["values"]
+    cls = sp_class(kind, how)
+    f = SP_PREPARERS[how]
+    value = {"set": set(vals), "list": list(vals), "dict": {f"k{i}": v for i, v in enumerate(vals)}}[kind]
+    want = {"set": {f(v) for v in vals}, "list": [f(v) for v in vals], "dict": {f"k{i}": f(v) for i, v in enumerate(vals)}}[kind]
+    given = copy.deepcopy(value)
+    try:
+        if route == "ctor":
+            obj = cls(numbers=value)
+        elif route == "assign":
+            obj = cls()
+            obj.numbers = value
+        elif route == "with":
+            obj = cls().with_numbers(value)
+        elif route == "with_inplace":
+            obj = cls()
+            obj.with_numbers(value, _inplace=True)
+        else:
+            obj = cls().update(numbers=value)
+    except (TypeError, ValueError, KeyError, AttributeError) as e:
+        ctx.fail(f"setprep|{kind}|{route}|raises:{type(e).__name__}", case, f"{route} with {value!r} raised {e!r}")
+        return
+    got = obj.numbers
+    if got != want:
+        ctx.fail(f"setprep|{kind}|{route}|stored", case, f"{route} with {given!r} and element preparer {how}: stored {got!r}, expected {want!r} (every element prepared exactly once)")
+        return
+    if value != given:
+        ctx.fail(f"setprep|{kind}|{route}|argument_changed", case, f"the caller's {given!r} became {value!r}")
+        return
+    ctx.case(case, len(vals) >= 2 and any(f(v) in vals for v in vals))
+
+
+def setprep_cases():
+    import itertools as _it
+
+    for kind in ("set", "list", "dict"):
+        for how in SP_PREPARERS:
+            for route in SP_ROUTES:
+                for n in range(0, 4):
+                    for vals in (_it.combinations([0, 1, 2, 3, -1], n) if kind == "set" else _it.product([0, 1, 2, -1], repeat=min(n, 3))):
+                        yield {"setprep": kind, "how": how, "route": route, "values": list(vals)}
+
+
 def units(tier, seed):
-    return [["hyp", i] for i in range(BOUNDS[tier]["units"])]
+    return [["hyp", i] for i in range(BOUNDS[tier]["units"])] + [["setprep"]]
 
 
 def run_unit(ctx, unit):
     b = BOUNDS[ctx.tier]
+    if unit[0] == "setprep":
+        for case in setprep_cases():
+            run_setprep(ctx, case)
+        ctx.count("setprep_completed")
+        return
     run_given(ctx, lambda case: run_case(ctx, case), {"case": case_strategy()}, b["examples"], ctx.seed * 1000 + unit[1])
 
 
 def replay(ctx, case):
+    if "setprep" in case:
+        return run_setprep(ctx, case)
     run_case(ctx, case)
